@@ -394,8 +394,8 @@ func reportToGitLabDiscussion(pending PendingComment, diffs []*gitlab.MergeReque
 		d.Position.NewLine = gitlab.Ptr(pending.line)
 		d.Position.OldLine = gitlab.Ptr(pending.line)
 	case pending.anchor == checks.AnchorBefore:
-		// Comment on removed line.
-		d.Position.OldLine = gitlab.Ptr(dl.old)
+		// Comment on removed line, pending.line is already a line number in the old file.
+		d.Position.OldLine = gitlab.Ptr(pending.line)
 	case ok && !dl.wasModified:
 		// Comment on unmodified line.
 		d.Position.NewLine = gitlab.Ptr(dl.new)
